@@ -55,6 +55,11 @@ def main(tier):
     # small-scope exhaustion: every legal body with <= 2 (thorough: 3) statement nodes, plain and wrapped in a loop with else
     small = pygen.modules_from_bodies(pygen.enum_function_bodies(3 if thorough else 2))
     mods += small
+    # frame compositions: every nesting (depth <= 2; depth 3 sampled, thorough: all) of try/finally, try/except(/else/finally),
+    # loops with and without a terminating else, with, if/elif/else, match around each terminator, code after every frame
+    fb2, _ = pygen.enum_frame_bodies(2)
+    fb3, _ = pygen.enum_frame_bodies(3, rng, None if thorough else 700)
+    mods += pygen.modules_from_bodies(fb2 + fb3[len(fb2) if thorough else 0:])
     d = lib.fresh_dir("c03")
     cc.write_modules(mods, d)
     stats = dict(functions=0, c03_functions=0, complexity_hist={}, risk_checks=0, dead_decisions=0, extra_functions=0,
